@@ -615,4 +615,19 @@ theorem oksPairMixed_eq (exp : R → R) (coco : Bool) (eps : R) (sds : List R) (
         unfold ks ksArg
         cases vis n.g <;> cases vis n.p <;> rfl
 
+/-! ## the detection score only orders the predictions -/
+
+/-- **Every prediction of the frame takes part in the matching, whatever its score.**  The loop runs
+over `sortDesc score prs`, a permutation of `prs`: a score of exactly `0` (a valid score and the
+sleap-io default), `-0`, a denormal or `1` is compared like any other value — `sortDesc` uses `<` only;
+the score never decides *whether* an instance is looked at (round-6 seed C16-r6m1 dropped
+predictions whose score is falsy). -/
+theorem match_every_prediction_takes_part {S : Type} [LT S] [DecidableLT S] {P : Type}
+    (score : P → S) (prs : List P) : (sortDesc score prs).Perm prs :=
+  sortDesc_perm score prs
+
+/-- all scores 0: both copies are matched, in listing order -/
+example : matchInstances (R := Rat) (fun (g p : Nat) => if g = p then some 1 else some (1/4)) (fun _ => 0) 0
+    [0, 1] [1, 0] = ([(1, 1, 1), (0, 0, 1)], []) := by decide +kernel
+
 end SleapVerif.C15
